@@ -4,16 +4,23 @@
     python3 tools/translate_selftest.py [--repo /repo] [--lean]
 
 1. runs the translator on the repository and compares with the committed generated file;
-2. copies the sources to a temporary directory (never touches the repository), applies one textual
-   mutation at a time and runs the translator on the copy.  Expected per mutation:
-     changed  the generated tables differ from the baseline
-     refused  the translator exits 2 and names the file / function
-     same     (formatting-only edits) the generated file is byte-identical
+2. copies the sources to a temporary directory (never touches the repository), applies one mutation
+   (textual replacements and / or diff files) at a time and runs the translator on the copy.  Expected:
+     changed          exit 0, nothing untied, the generated tables differ from the baseline
+     untied:A,B       exit 0, `translate.py: UNTIED A: <reason>` and the same for B on stdout, nothing else
+                      untied; A and B are `none` / `[]` / absent rows with their TYPE code in `untiedParse` /
+                      `untiedWrite` / `untiedCompressed`; every other item is as in the baseline
+     changed+untied:A both: A is untied and another item differs from the baseline
+     same             (formatting-only edits) the generated file is byte-identical
+     changed-harmless the text differs although the function does not (Tie.lean must still check)
    With --lean every outcome is also checked against Props/Tie.lean: a `changed` table must make a
-   theorem fail to check, a `same` one must still check (scratch copies of both files are compiled
-   under the temporary directory; the lake project is not touched).
+   theorem fail to check (the named one, where a name is given), an `untied` or `same` one must still
+   check (scratch copies of both files are compiled under the temporary directory, several at a time;
+   the lake project is not touched).
+3. the translator never exits 2 on source text it does not understand (any exit code other than 0 is
+   a failure above); a source tree that is not there is the one case of exit 2, checked last.
 """
-import argparse, os, re, shutil, subprocess, sys, tempfile, time
+import argparse, concurrent.futures, os, re, shutil, subprocess, sys, tempfile, time
 
 HERE = os.path.dirname(os.path.abspath(__file__))
 TRANSLATE = os.path.join(HERE, 'translate.py')
@@ -22,8 +29,34 @@ GENERATED = os.path.join(LEAN_DIR, 'SimpleDnsModel/Generated/FromSource.lean')
 TIE = os.path.join(LEAN_DIR, 'SimpleDnsModel/Props/Tie.lean')
 D, R = 'simple-dns/src/dns/', 'simple-dns/src/dns/rdata/'
 
-# (label, file, old text (must occur exactly once), new text, expected outcome)
+MX_PARSE = """        if *position + 2 > data.len() {
+            return Err(crate::SimpleDnsError::InsufficientData);
+        }
+
+        let preference = u16::from_be_bytes(data[*position..*position + 2].try_into()?);
+        *position += 2;
+        let exchange = Name::parse(data, position)?;
+
+        Ok(Self {
+            preference,
+            exchange,
+        })
+"""
+MX_PARSE_CLOSURE = ("        let read = |data: &'a [u8], position: &mut usize| -> crate::Result<Self> {\n" + MX_PARSE +
+                    "        };\n        read(data, position)\n")
+WRAPPERS = ['NS', 'MD', 'CNAME', 'MB', 'MG', 'MR', 'PTR', 'MF', 'NSAP_PTR', 'HTTPS']
+MDNS = 'simple-mdns/src/resource_record_manager.rs'
+
+# (label, file, old text (must occur exactly once), new text, expected outcome[, theorem that must fail first])
+#   file None:   `old` is a diff file (looked for in tools/ and in its parent directory)
+#   new None:    the file is removed
+#   file a list: several steps (file, old, new) of the above
 MUTATIONS = [
+    ("harmless07.diff: opt.rs masks replaced by byte indexing, same behaviour", None, 'harmless07.diff', None,
+     'untied:optRcodeMask,optVersionMask'),
+    ("mutant_opcode_mask.diff: OPCODE_MASK = 0b1111 with a shift constant", None, 'mutant_opcode_mask.diff', None,
+     'changed', 'opcodeMask'),
+    ("mx.rs parse: body wrapped in a helper closure, same behaviour", R + 'mx.rs', MX_PARSE, MX_PARSE_CLOSURE, 'untied:parse:MX'),
     ("mx.rs parse: name read before the preference", R + 'mx.rs',
      """        let preference = u16::from_be_bytes(data[*position..*position + 2].try_into()?);
         *position += 2;
@@ -69,9 +102,9 @@ MUTATIONS = [
      "let size = u8::from_be(data[1]);\n        let horizontal_precision = u8::from_be(data[2]);",
      "let size = u8::from_be(data[2]);\n        let horizontal_precision = u8::from_be(data[1]);", 'changed'),
     ("nsap.rs write: aa written in full", R + 'nsap.rs', "self.aa.to_be_bytes()[1..4]", "self.aa.to_be_bytes()", 'changed'),
-    ("nsap.rs write: high-order bytes of aa", R + 'nsap.rs', "self.aa.to_be_bytes()[1..4]", "self.aa.to_be_bytes()[0..3]", 'refused'),
+    ("nsap.rs write: high-order bytes of aa", R + 'nsap.rs', "self.aa.to_be_bytes()[1..4]", "self.aa.to_be_bytes()[0..3]", 'untied:write:NSAP'),
     ("nsec.rs parse: ordering check >= weakened to >", R + 'nsec.rs',
-     "f.window_block >= window_block", "f.window_block > window_block", 'refused'),
+     "f.window_block >= window_block", "f.window_block > window_block", 'untied:parse:NSEC'),
     ("nsec.rs write: windows no longer sorted", R + 'nsec.rs', "for record in sorted.iter()", "for record in self.type_bit_maps.iter()", 'changed'),
     ("svcb.rs parse: previous_key never updated", R + 'svcb.rs', "            previous_key = i32::from(key);\n", "", 'changed'),
     ("svcb.rs write: 1-byte value length", R + 'svcb.rs', "let value_length = value.len() as u16;", "let value_length = value.len() as u8;", 'changed'),
@@ -84,18 +117,18 @@ MUTATIONS = [
             }
         }""", """        for string in &self.strings {
             string.write_to(out)?;
-        }""", 'refused'),
+        }""", 'untied:write:TXT'),
     ("cert.rs parse: a conditional extra read", R + 'cert.rs',
      "        let certificate = &data[*position..];",
-     "        if algorithm == 0 { let _pad = data[*position]; *position += 1; }\n        let certificate = &data[*position..];", 'refused'),
-    ("wks.rs parse: protocol read from the wrong offset", R + 'wks.rs', "data[*position + 4];", "data[*position + 3];", 'refused'),
-    ("kx.rs parse: position not advanced", R + 'kx.rs', "        *position += 2;\n", "", 'refused'),
+     "        if algorithm == 0 { let _pad = data[*position]; *position += 1; }\n        let certificate = &data[*position..];", 'untied:parse:CERT'),
+    ("wks.rs parse: protocol read from the wrong offset", R + 'wks.rs', "data[*position + 4];", "data[*position + 3];", 'untied:parse:WKS'),
+    ("kx.rs parse: position not advanced", R + 'kx.rs', "        *position += 2;\n", "", 'untied:parse:KX'),
     ("kx.rs write: a conditional early return", R + 'kx.rs',
      "        out.write_all(&self.preference.to_be_bytes())?;",
-     "        if self.preference == 0 { return Ok(()); }\n        out.write_all(&self.preference.to_be_bytes())?;", 'refused'),
+     "        if self.preference == 0 { return Ok(()); }\n        out.write_all(&self.preference.to_be_bytes())?;", 'untied:write:KX'),
     ("rp.rs parse: a conditional early return", R + 'rp.rs',
      "        let txt = Name::parse(data, position)?;",
-     "        if *position == data.len() { return Ok(RP { mbox: mbox.clone(), txt: mbox }); }\n        let txt = Name::parse(data, position)?;", 'refused'),
+     "        if *position == data.len() { return Ok(RP { mbox: mbox.clone(), txt: mbox }); }\n        let txt = Name::parse(data, position)?;", 'untied:parse:RP'),
     ("name.rs: MAX_POINTER_OFFSET widened", D + 'name.rs',
      "MAX_POINTER_OFFSET: usize = 0b0011_1111_1111_1111", "MAX_POINTER_OFFSET: usize = 0b0111_1111_1111_1111", 'changed'),
     ("mod.rs: MAX_LABEL_LENGTH 63 -> 64", D + 'mod.rs', "MAX_LABEL_LENGTH: usize = 63", "MAX_LABEL_LENGTH: usize = 64", 'changed'),
@@ -122,77 +155,236 @@ MUTATIONS = [
         /* then */ *position
             += 2;""", 'same'),
     ("mod.rs: two arms of From<u16> for RCODE reordered textually, same function", D + 'mod.rs',
-     "            0 => NoError,\n            1 => FormatError,", "            1 => FormatError,\n            0 => NoError,", 'changed-harmless'),
+     "            0 => NoError,\n            1 => FormatError,", "            1 => FormatError,\n            0 => NoError,", 'same'),
+    # one item of every kind untied: the rest is generated as usual and Tie.lean still checks
+    ("a.rs: TYPE_CODE is not a literal", R + 'a.rs', "const TYPE_CODE: u16 = 1;", "const TYPE_CODE: u16 = 0 + 1;",
+     'untied:typeCodes,parse:A,write:A,compressed:A'),
+    ("mod.rs: the rdata_enum! invocation renamed", R + 'mod.rs', "macros::rdata_enum! {", "macros::rdata_enum_v2! {", 'untied:*'),
+    ("macros.rs: TYPE -> TYPE_CODE arm reshaped", R + 'macros.rs', "TYPE::$i => $i::TYPE_CODE,", "TYPE::$i => <$i as RR>::TYPE_CODE,",
+     'untied:typeCodes'),
+    ("macros.rs: rr_wrapper! parse written with `?`", R + 'macros.rs', "$w::parse(data, position).map(|n| $t(n))",
+     "Ok($t($w::parse(data, position)?))", 'untied:' + ','.join('parse:' + w for w in WRAPPERS)),
+    ("mx.rs write_compressed_to: result bound before it is returned", R + 'mx.rs',
+     "        self.exchange.write_compressed_to(out, name_refs)\n",
+     "        let r = self.exchange.write_compressed_to(out, name_refs);\n        r\n", 'untied:parse:MX,write:MX,compressed:MX'),
+    ("a.rs write_compressed_to: an override that is not understood, no names", R + 'a.rs',
+     "    fn len(&self) -> usize {", """    fn write_compressed_to<T: std::io::Write + std::io::Seek>(
+        &'a self,
+        out: &mut T,
+        _: &mut std::collections::HashMap<&'a [crate::dns::name::Label<'a>], usize>,
+    ) -> crate::Result<()> {
+        let bytes = self.address.to_be_bytes();
+        out.write_all(&bytes).map_err(crate::SimpleDnsError::from)
+    }
+
+    fn len(&self) -> usize {""", 'untied:compressed:A'),
+    ("mod.rs: a PacketFlag constant written as a shift", D + 'mod.rs',
+     "const TRUNCATION = 0b0000_0010_0000_0000", "const TRUNCATION = 1 << 9", 'untied:packetFlags'),
+    ("header.rs: RESERVED_MASK written as a shift", D + 'header.rs',
+     "RESERVED_MASK: u16 = 0b0000_0000_0100_0000", "RESERVED_MASK: u16 = 1 << 6", 'untied:reservedMask'),
+    ("mod.rs: a CLASS discriminant written as a sum", D + 'mod.rs', "    NONE = 254,", "    NONE = 253 + 1,", 'untied:classTable'),
+    ("mod.rs: an arm of TryFrom<u16> for CLASS with a guard", D + 'mod.rs',
+     "            254 => Ok(NONE),", "            v if v == 254 => Ok(NONE),", 'untied:classArms'),
+    ("mod.rs: an arm of From<u16> for OPCODE with a guard", D + 'mod.rs',
+     "            4 => OPCODE::Notify,", "            v if v == 4 => OPCODE::Notify,", 'untied:opcodeArms'),
+    ("mod.rs: an OPCODE discriminant written as a sum", D + 'mod.rs', "    Notify = 4,", "    Notify = 3 + 1,", 'untied:opcodeTable'),
+    ("mod.rs: an arm of From<u16> for RCODE with a guard", D + 'mod.rs',
+     "            16 => BADVERS,", "            v if v == 16 => BADVERS,", 'untied:rcodeArms'),
+    ("mod.rs: an RCODE discriminant written as a sum", D + 'mod.rs', "    Reserved = 15,", "    Reserved = 14 + 1,", 'untied:rcodeTable'),
+    ("mod.rs: the arm of TryFrom<u16> for QCLASS with a guard", D + 'mod.rs',
+     "            255 => Ok(QCLASS::ANY),", "            v if v == 255 => Ok(QCLASS::ANY),", 'untied:qclassSpecials'),
+    ("mod.rs: QTYPE default arm names TYPE by its path", D + 'mod.rs',
+     "            v => match TYPE::from(v) {", "            v => match crate::TYPE::from(v) {", 'untied:qtypeSpecials'),
+    ("simple-mdns: the TTL converted before Duration::from_secs", MDNS,
+     "let expire_at = added + Duration::from_secs(ttl);", "let expire_at = added + Duration::from_secs(ttl.into());", 'untied:ttlUnitMillis'),
+    ("simple-mdns: cache-flush TTL selected by an if / else if", MDNS,
+     "let ttl = if resource.cache_flush {", "let ttl = if !resource.cache_flush { resource.ttl } else if resource.cache_flush {", 'untied:cacheFlushTtl'),
+    ("rdata/opt.rs removed (OPT::TYPE_CODE goes with it)", R + 'opt.rs', '', None, 'untied:typeCodes,optRcodeMask,optVersionMask'),
+    # untied and changed at once: the untied item does not hide the other one
+    ("harmless07.diff and MAX_LABEL_LENGTH 63 -> 64",
+     [(None, 'harmless07.diff', None), (D + 'mod.rs', "MAX_LABEL_LENGTH: usize = 63", "MAX_LABEL_LENGTH: usize = 64")],
+     None, None, 'changed+untied:optRcodeMask,optVersionMask', 'maxLabel'),
+    ("mx.rs: parse untied, write_to with the fields swapped",
+     [(R + 'mx.rs', MX_PARSE, MX_PARSE_CLOSURE),
+      (R + 'mx.rs', "        out.write_all(&self.preference.to_be_bytes())?;\n        self.exchange.write_to(out)\n",
+       "        self.exchange.write_to(out)?;\n        out.write_all(&self.preference.to_be_bytes()).map_err(crate::SimpleDnsError::from)\n")],
+     None, None, 'changed+untied:parse:MX', 'writeSchema_model'),
+    ("mx.rs: parse untied, write_compressed_to no longer compresses",
+     [(R + 'mx.rs', MX_PARSE, MX_PARSE_CLOSURE),
+      (R + 'mx.rs', "self.exchange.write_compressed_to(out, name_refs)", "self.exchange.write_to(out)")],
+     None, None, 'changed+untied:parse:MX', 'writeSchema_model'),
 ]
 
 def run_translator(repo, out):
     p = subprocess.run([sys.executable, TRANSLATE, '--repo', repo, '--out', out], capture_output=True, text=True)
-    return p.returncode, (p.stderr.strip() or p.stdout.strip())
+    return p.returncode, p.stdout.strip(), p.stderr.strip()
+
+# ---------------------------------------------------------------- the generated file, item by item
+
+SCHEMA_TABLES = {'parse': ('parseSchema', 'parseFields', 'untiedParse'), 'write': ('writeSchema', 'writeFields', 'untiedWrite'),
+                 'compressed': ('compressedSchema', 'untiedCompressed')}
+DEFAULT_OF = {'classArms': 'classDefault', 'opcodeArms': 'opcodeDefault', 'rcodeArms': 'rcodeDefault'}
+
+def read_defs(text):
+    """def name -> its value: a string without whitespace, or for a table the list of its rows / elements"""
+    defs = {}
+    for m in re.finditer(r'^def (\w+) : ([^\n]*?) := (.*?)(?=^(?:def |/-|--|end )|^$)', text, re.M | re.S):
+        name, ty, val = m.group(1), m.group(2), re.sub(r'\s+', '', m.group(3))
+        if ty.startswith('List (Nat × List'): val = re.findall(r'\((\d+),\[(.*?)\]\)', val)
+        elif ty.startswith('List'): val = re.findall(r'\([^()]*\)|"[^"]*"|\d+', val)
+        defs[name] = val
+    return defs
+
+def expected_defs(base, items):
+    """the baseline with exactly `items` untied (None for a key: not compared)"""
+    exp = dict(base)
+    exp['untied'] = sorted(f'"{i}"' for i in items)
+    code = {re.match(r'\("(\w+)"', e).group(1): e.rstrip(')').split(',')[1] for e in base['typeCodes']}
+    codes_known = 'typeCodes' not in items
+    for it in items:
+        kind, _, ty = it.partition(':')
+        if ty:
+            *tables, codes = SCHEMA_TABLES[kind]
+            for t in tables: exp[t] = [r for r in exp[t] if r[0] != code[ty]]
+            exp[codes] = exp[codes] + [code[ty]] if codes_known else None
+        elif it in base and base[it].__class__ is list: exp[it] = []
+        else: exp[it] = 'none'
+        if it in DEFAULT_OF: exp[DEFAULT_OF[it]] = 'none'
+    return exp
+
+def compare_untied(base_text, out_text, stdout, want):
+    """-> (ok, note): were exactly the items `want` untied (a list, or '*': typeCodes and every schema row),
+    and is every other item as in the baseline?"""
+    said = re.findall(r'^translate\.py: UNTIED (\S+): \S', stdout, re.M)
+    base, got = read_defs(base_text), read_defs(out_text)
+    listed = [e.strip('"') for e in got.get('untied', [])]
+    if sorted(said) != sorted(listed): return False, f"stdout says UNTIED {said}, `def untied` lists {listed}"
+    if len(re.findall(r'^-- UNTIED ', out_text, re.M)) != len(listed): return False, "reasons are not in the generated file"
+    if want == ['*']:
+        if 'typeCodes' not in said or any(i != 'typeCodes' and i.split(':')[0] not in SCHEMA_TABLES for i in said):
+            return False, f"untied: {said}"
+        exp = dict(base, untied=None, typeCodes=[], untiedParse=None, untiedWrite=None, untiedCompressed=None)
+        for k in SCHEMA_TABLES.values():
+            for t in k[:-1]: exp[t] = []
+    else:
+        if sorted(said) != sorted(want): return False, f"untied {said}, expected {want}"
+        exp = expected_defs(base, want)
+    if got.keys() != exp.keys(): return False, f"defs {sorted(got.keys() ^ exp.keys())} missing or new"
+    norm = lambda k, v: sorted(v) if k.startswith('untied') else v
+    diff = [k for k in exp if exp[k] is not None and norm(k, got[k]) != norm(k, exp[k])]
+    return (not diff), (f"other items differ from the baseline: {diff}" if diff else f"untied {', '.join(said)}; every other item as in the baseline")
+
+# ---------------------------------------------------------------- Props/Tie.lean against a generated file
 
 class LeanCheck:
     """compile scratch copies (module names TieScratch.*) of a generated file and of Tie.lean against it"""
     def __init__(self, tmp):
         env = lambda *a: subprocess.run(['lake', 'env', *a], cwd=LEAN_DIR, capture_output=True, text=True).stdout.strip()
-        self.lean, self.src, self.lib = env('which', 'lean'), os.path.join(tmp, 'leansrc/TieScratch'), os.path.join(tmp, 'leanlib')
-        self.env = dict(os.environ, LEAN_PATH=self.lib + os.pathsep + env('printenv', 'LEAN_PATH'))
-        os.makedirs(self.src); os.makedirs(os.path.join(self.lib, 'TieScratch'))
-        with open(os.path.join(self.src, 'Tie.lean'), 'w') as f:
-            f.write(open(TIE).read().replace('import SimpleDnsModel.Generated.FromSource', 'import TieScratch.FromSource'))
-    def fails(self, generated):
-        """-> None if Tie checks against `generated`, else the first error line"""
-        shutil.copy(generated, os.path.join(self.src, 'FromSource.lean'))
-        for args in (['FromSource.lean', '-o', os.path.join(self.lib, 'TieScratch/FromSource.olean')], ['Tie.lean']):
-            p = subprocess.run([self.lean, *args], cwd=self.src, env=self.env, capture_output=True, text=True)
-            if p.returncode != 0:
-                err = next((l for l in (p.stdout + p.stderr).splitlines() if 'error' in l), 'error')
-                m = re.search(r'Tie\.lean:(\d+):', err)
-                thm = m and next((l.split()[1] for l in reversed(open(TIE).read().splitlines()[:int(m.group(1))])
-                                  if l.startswith('theorem ')), None)
-                return f"theorem {thm} (Tie.lean:{m.group(1)})" if thm else err[:150]
-        return None
+        self.lean, self.tmp, self.path = env('which', 'lean'), tmp, env('printenv', 'LEAN_PATH')
+        self.tie = open(TIE).read().replace('import SimpleDnsModel.Generated.FromSource', 'import TieScratch.FromSource')
+    def fails(self, generated_text):
+        """-> None if Tie checks against the generated file, else the first theorem that does not (or the error)"""
+        d = tempfile.mkdtemp(prefix='lean', dir=self.tmp)      # one scratch directory per check: they run concurrently
+        src, lib = os.path.join(d, 'src/TieScratch'), os.path.join(d, 'lib')
+        os.makedirs(src); os.makedirs(os.path.join(lib, 'TieScratch'))
+        for name, text in (('Tie.lean', self.tie), ('FromSource.lean', generated_text)):
+            with open(os.path.join(src, name), 'w') as f: f.write(text)
+        env = dict(os.environ, LEAN_PATH=lib + os.pathsep + self.path)
+        try:
+            for args in (['FromSource.lean', '-o', os.path.join(lib, 'TieScratch/FromSource.olean')], ['Tie.lean']):
+                p = subprocess.run([self.lean, *args], cwd=src, env=env, capture_output=True, text=True)
+                if p.returncode != 0:
+                    err = next((l for l in (p.stdout + p.stderr).splitlines() if 'error' in l), 'error')
+                    m = re.search(r'Tie\.lean:(\d+):', err)
+                    thm = m and next((l.split()[1] for l in reversed(self.tie.splitlines()[:int(m.group(1))])
+                                      if l.startswith('theorem ')), None)
+                    return f"theorem {thm} (Tie.lean:{m.group(1)})" if thm else err[:150]
+            return None
+        finally:
+            shutil.rmtree(d, ignore_errors=True)
+
+def find_diff(name):
+    return next((p for p in (os.path.join(HERE, name), os.path.join(HERE, '..', name)) if os.path.exists(p)), None)
+
+def mutate(copy, rel, old, new):
+    """-> None or why the mutation does not apply"""
+    if isinstance(rel, list):
+        return next((e for e in (mutate(copy, *step) for step in rel) if e), None)
+    if rel is None:
+        path = find_diff(old)
+        if not path: return f"{old} not found in tools/ or next to it"
+        p = subprocess.run(['patch', '-p1', '-s', '-i', os.path.abspath(path)], cwd=copy, capture_output=True, text=True)
+        return None if p.returncode == 0 else f"{old} does not apply: {(p.stdout + p.stderr).strip()[:200]}"
+    path = os.path.join(copy, rel)
+    if new is None:
+        os.remove(path); return None
+    src = open(path).read()
+    if src.count(old) != 1: return f"mutation does not apply ({src.count(old)} occurrences in {rel})"
+    with open(path, 'w') as f: f.write(src.replace(old, new))
+    return None
 
 def main():
     ap = argparse.ArgumentParser(description=__doc__.split('\n')[0])
     ap.add_argument('--repo', default='/repo')
     ap.add_argument('--lean', action='store_true', help='also check every outcome against Props/Tie.lean')
+    ap.add_argument('--jobs', type=int, default=min(8, os.cpu_count() or 1), help='Lean checks run at a time')
     args = ap.parse_args()
     bad, t0 = 0, time.time()
     with tempfile.TemporaryDirectory(prefix='translate_selftest_') as tmp:
         base = os.path.join(tmp, 'baseline.lean')
-        rc, msg = run_translator(args.repo, base)
-        print(f"[{'ok' if rc == 0 else 'FAIL'}] translator on {args.repo}: {msg}")
+        rc, msg, err = run_translator(args.repo, base)
+        ok = rc == 0 and 'UNTIED' not in msg and re.search(r'tied \d+ items, untied 0$', msg) is not None
+        print(f"[{'ok' if ok else 'FAIL'}] translator on {args.repo}: {msg or err}")
         if rc != 0: return 1
+        bad += not ok
         baseline = open(base).read()
         fresh = os.path.exists(GENERATED) and open(GENERATED).read() == baseline
         print(f"[{'ok' if fresh else 'FAIL'}] committed {os.path.relpath(GENERATED, LEAN_DIR)} is up to date")
         bad += not fresh
         lean = LeanCheck(tmp) if args.lean else None
-        if lean:
-            f = lean.fails(base)
-            print(f"[{'ok' if f is None else 'FAIL'}] Tie.lean checks against the baseline" + (f": {f}" if f else ""))
-            bad += f is not None
-        for label, rel, old, new, expect in MUTATIONS:
+        pool = concurrent.futures.ThreadPoolExecutor(max_workers=max(1, args.jobs))
+        results = []     # (label, ok so far, outcome text, note, future of the Lean check or None, must Tie fail, theorem)
+        if lean: results.append(("Tie.lean against the baseline", True, "checked", '', pool.submit(lean.fails, baseline), False, None))
+        for label, rel, old, new, expect, *thm in MUTATIONS:
             copy = os.path.join(tmp, 'repo')
             shutil.rmtree(copy, ignore_errors=True)
             for sub in ('simple-dns/src', 'simple-mdns/src'):
                 shutil.copytree(os.path.join(args.repo, sub), os.path.join(copy, sub))
-            path = os.path.join(copy, rel)
-            src = open(path).read()
-            if src.count(old) != 1:
-                print(f"[FAIL] {label}: mutation does not apply ({src.count(old)} occurrences in {rel})"); bad += 1; continue
-            with open(path, 'w') as f: f.write(src.replace(old, new))
+            why = mutate(copy, rel, old, new)
+            if why:
+                results.append((label, False, why, '', None, False, None)); continue
             out = os.path.join(tmp, 'mutant.lean')
             if os.path.exists(out): os.remove(out)
-            rc, msg = run_translator(copy, out)
-            got = 'refused' if rc == 2 else 'error' if rc != 0 else 'same' if open(out).read() == baseline else 'changed'
-            ok, note = got == expect.split('-')[0], msg if got == 'refused' else ''
-            if ok and lean and got in ('changed', 'same'):
-                f = lean.fails(out)
-                want_fail = expect == 'changed'
-                ok = (f is not None) == want_fail
-                note = (f"Tie fails at {f}" if f else "Tie still checks") + ("" if ok else "  <-- unexpected")
-            print(f"[{'ok' if ok else 'FAIL'}] {label}: {got}" + (f" (expected {expect})" if not ok else "") + (f"\n       {note}" if note else ""))
+            rc, msg, err = run_translator(copy, out)
+            if rc != 0 or not os.path.exists(out):
+                results.append((label, False, f"exit {rc}: {err or msg}", '', None, False, None)); continue
+            text, untied = open(out).read(), 'UNTIED' in msg
+            kind, _, items = expect.partition(':')
+            got = ('same' if text == baseline else 'changed+untied' if untied and kind == 'changed+untied' else
+                   'untied' if untied else 'changed')
+            ok, note = got == kind.split('-')[0], ''
+            if ok and kind == 'untied':
+                ok, note = compare_untied(baseline, text, msg, items.split(','))
+            elif ok and kind == 'changed+untied':
+                exp = expected_defs(read_defs(baseline), items.split(','))
+                said = re.findall(r'^translate\.py: UNTIED (\S+): \S', msg, re.M)
+                ok = sorted(said) == sorted(items.split(',')) and read_defs(text) != exp
+                note = f"untied {', '.join(said)}; another item differs from the baseline" if ok else f"untied {said}"
+            must_fail = kind in ('changed', 'changed+untied')
+            fut = pool.submit(lean.fails, text) if ok and lean else None
+            results.append((label, ok, got + ('' if ok else f" (expected {expect})"), note, fut, must_fail, thm[0] if thm else None))
+        for label, ok, got, note, fut, must_fail, thm in results:
+            if fut:
+                f = fut.result()
+                ok = (f is not None) == must_fail and (not thm or not f or f.startswith(f"theorem {thm} "))
+                note += ('; ' if note else '') + (f"Tie fails at {f}" if f else "Tie still checks") + \
+                        ("" if ok else f"  <-- unexpected{', expected theorem ' + thm if thm and f else ''}")
+            print(f"[{'ok' if ok else 'FAIL'}] {label}: {got}" + (f"\n       {note}" if note else ""))
             bad += not ok
+        rc, msg, err = run_translator(os.path.join(tmp, 'no-such-repo'), os.path.join(tmp, 'none.lean'))
+        ok = rc == 2 and not os.path.exists(os.path.join(tmp, 'none.lean'))
+        print(f"[{'ok' if ok else 'FAIL'}] no source tree: exit {rc} ({err or msg})")
+        bad += not ok
     print(f"{len(MUTATIONS)} mutations, {bad} failures, {time.time() - t0:.1f} s")
     return 1 if bad else 0
 
